@@ -1,7 +1,6 @@
 (* The lexer on rendered well-formed documents: lex (render d) = Ok (doc_toks d). *)
 From V.model Require Import Base Deb822Lex Deb822Parse Grammar.
 From V.proofs Require Import BaseP Deb822LexP.
-Set Default Timeout 60.
 
 (* ---- fuel irrelevance ---- *)
 Lemma lex_go_fuel f1 : forall f2 st s, length s <= f1 -> length s <= f2 -> lex_go f1 st s = lex_go f2 st s.
